@@ -419,6 +419,11 @@ def n2(ctx):
         st = [s for bi, si, s in a.statements() if s["k"] == "assign" and not s["lhs"]["p"] and s["lhs"]["l"] == 0]
     # what is written over the occurrence and recorded is the number itself on every path (not "the old name in some case")
     oki = oki and all(is_numeric(a.role_of_rvalue(s_["rv"])) for s_ in st)
+    incb = [bi for bi, si, s in a.statements() if s["k"] == "assign" and mir.place_fields(s["lhs"]) and mir.place_fields(s["lhs"])[-1][1] == "1" and role_str(a.role_of_rvalue(s["rv"])).startswith("(m.1 AddWithOverflow const 1_u32)")]
+    insb = [c.bb for c in ins]
+    ctx.check(len(incb) == 1 and a.must_pass([0], a.return_blocks(), set(incb)) and bool(insb) and a.must_pass([0], a.return_blocks(), set(insb)), "counter-step-unconditional",
+              "every call of add_slot uses up a number and records old -> new: the bump and the insert lie on every path to the return",
+              "add_slot can return without bumping the counter (or without recording the pair): a binder that shadows an already numbered name then shares its number with the next slot seen — the free slot is captured, alpha-variants get different shapes", where_of(a))
     ctx.check(len(inc) == 1 and oki and len(st) == 1, "counter-step-and-record", "add_slot bumps the counter by one, records old -> new and overwrites the occurrence", "add_slot no longer does counter += 1 / record / overwrite exactly once (inc=%d, insert ok=%s, stores=%d)" % (len(inc), oki, len(st)), where_of(a))
     # on_see_slot: reuse the recorded number, else add_slot
     g = [c for c in o.calls if c.callee and c.callee.name == "get"]
